@@ -89,6 +89,13 @@ def expr_cases(rng, tier):
         if G.pdepth(0, e, rho) + 1 > 95:
             continue
         cases.append(dict(id="rand:%d" % i, e=e, rho=rho, kind="random"))
+    # unary minus / plus (outside Spec/RefGrammar.v's mexpr: oracle and model-vs-code tie only)
+    for cid, e, rho in G.neg_cases():
+        cases.append(dict(id=cid, e=e, rho=rho, kind="neg"))
+    for i in range(60 if tier == "quick" else 600):
+        e = G.rand_expr(rng, rng.choice([2, 4, 8, 16]))
+        e = G.with_signs(rng, e)
+        cases.append(dict(id="randneg:%d" % i, e=e, rho=G.rand_rho(rng, e, rng.choice([0.0, 0.2])), kind="neg"))
     # deep nesting near the limit (depth counter)
     for n in (10, 50, 97, 98):
         e = ("ident", False, "a")
@@ -97,6 +104,10 @@ def expr_cases(rng, tier):
     for _ in range(40):
         e = ("not", e)
     cases.append(dict(id="deep-not:40", e=e, rho={}, kind="deep"))
+    e = ("ident", False, "a")
+    for _ in range(60):
+        e = ("neg", "-", e)
+    cases.append(dict(id="deep-neg:60", e=e, rho={}, kind="neg"))
     return cases, len(pcs)
 
 
@@ -197,6 +208,7 @@ def correspondence_cases(rng, tier, cases):
     for d in (95, 98, 99, 100, 101):
         texts.append(("depth:%d" % d, "( ( a + 1 ) ) * NOT b", d))
         texts.append(("depthf:%d" % d, "f ( CASE WHEN a THEN ( b ) END )", d))
+        texts.append(("depthn:%d" % d, "a * - + - b", d))
     return texts
 
 
@@ -239,7 +251,7 @@ def run_correspondence(rp, tier, rng, cases):
 
 def run_generator_crosscheck(rp, tier, rng, cases):
     """Spec/RefGrammar.render, pdepth, ref_expr and Model/Expr.ast_of agree with the Python generator"""
-    sample = list(cases)
+    sample = [c for c in cases if G.is_core(c["e"])]
     rng.shuffle(sample)
     sample = sample[:400 if tier == "quick" else 3000]
     def mk_r(c):
